@@ -78,7 +78,7 @@ def run(ctx: Ctx) -> None:
     _flush(ctx, groups, stats, "model paths", force=True)
     # ---- 3. code -> spec: generated / mutated / random streams x limit configurations
     lim_names = ["default", "default", "small-equal", "line>field", "line<field", "tiny-read-buffer"]
-    n_valid = ctx.pick(200, 120)     # thorough: every applicable position of every class
+    n_valid = ctx.pick(170, 120)     # thorough: every applicable position of every class
     per_class = ctx.pick(4, None)
     k = 0
     conn_budget = ctx.pick(600, 8000)
@@ -103,7 +103,7 @@ def run(ctx: Ctx) -> None:
     _flush(ctx, groups, stats, "generated/mutated", force=True)
     # ---- 5. pipelines with upgrade offers: the parser reports the offer and hands back the rest of the stream; a
     #         connection whose handler declines it must go on with the pipelined requests - each exactly once
-    for i in range(ctx.pick(120, 1200)):
+    for i in range(ctx.pick(100, 1200)):
         msgs = G.gen_upgrade_pipeline(rng)
         data = G.render(G.flatten(msgs))
         g = H.Group("request", data, H.DEFAULT_LIMITS, src="upgrade-pipeline", label="upgrade offers in a pipeline")
